@@ -24,6 +24,12 @@ type entry struct {
 	mk   func() msg
 }
 
+// addExported: lib/props/c08.py (the generator of types.go, shared with C08) emits one call per package of the tree that offers
+// constructors of its UNEXPORTED generated-codec types (`VerifCodecTypes()`, build tag verif).  C09 reaches those types
+// through the entry points that use them (sync.decodeRequests, sync.resp.*, p2p.decodeResponse, ...); they are not added to
+// its registry (the set of entry points of this check does not depend on which optional exports a tree carries).
+func addExported(pkg string, m map[string]func() interface{}) {}
+
 type field struct {
 	num  int
 	kind string
